@@ -311,7 +311,8 @@ access(all) contract Ent {
 }
 
 type scnStep struct {
-	SameEngineOnly bool
+	SameEngineOnly bool // differential only, and only within each engine: any outcome is acceptable
+
 	Kind   string // "tx" | "script"
 	Src    string
 	Expect []string // expected logs ("" entries are not checked); nil = differential only
